@@ -883,6 +883,165 @@ func (w *c4worker) malformedGen() ([]byte, string) {
 	}
 }
 
+
+// ------------------------------------------------------------------ the Go decoders on arbitrary byte strings
+
+// Every byte string whose length is a multiple of the value width IS a conformant PLAIN /
+// BYTE_STREAM_SPLIT encoding (of the values the SPEC decoder reads): the Go decoder must return
+// exactly those (L1, independent decoder = Lean SPEC), into a dirty destination; any other length
+// is malformed (an accepted one is an observation). L2: outcome and bytes == the Lean mirror of the
+// Go decoder (goDecFixed, goDecFLBA, goBssDecFixed, goBssDecFLBA with the destination's content).
+func (w *c4worker) decoderCase(encName string, k c4kind, src []byte) {
+	ctx := w.b.ctx
+	var enc encoding.Encoding
+	if encName == "plain" {
+		enc = new(plain.Encoding)
+	} else {
+		enc = new(bytestreamsplit.Encoding)
+	}
+	srcHex := core.Hex(src)
+	ctx.Case("decode "+encName+" "+k.String()+" "+srcHex, len(src) >= 2*k.width)
+	wellFormed := len(src)%k.width == 0
+	ctx.Hist("decode.type", encName+" "+k.String())
+	ctx.Hist("decode.wellformed", fmt.Sprintf("%v", wellFormed))
+	ddst, dhow := c4DirtyValues(k, w.r, len(src))
+	draw, _ := ddst.Data()
+	stale := "-"
+	if cap(draw) >= len(src) && len(src) > 0 { // resize() re-slices: the 0xFF filling is what the decoder writes over
+		stale = strings.Repeat("ff", len(src))
+	}
+	detail := func(extra map[string]any) map[string]any {
+		m := map[string]any{"encoding": encName, "type": k.String(), "stream": c4short(srcHex), "decode_dst": dhow, "variant": w.b.variant}
+		for kk, v := range extra {
+			m[kk] = v
+		}
+		return m
+	}
+	outcome := ""
+	var back [][]byte
+	var flat []byte
+	func() {
+		defer func() {
+			if p := recover(); p != nil {
+				outcome = fmt.Sprintf("panic: %v", p)
+			}
+		}()
+		dv, err := c4Decode(k, enc, ddst, bytes.Clone(src))
+		if err != nil {
+			outcome = "err"
+			return
+		}
+		data, _ := dv.Data()
+		flat = bytes.Clone(data)
+		back, err = c4FromValues(k, dv, 0)
+		if err != nil {
+			outcome = "bad-result: " + err.Error()
+			return
+		}
+		outcome = "ok"
+	}()
+	sig := encName + "-" + k.name + "-decoder"
+	switch {
+	case wellFormed && outcome != "ok":
+		ctx.Fail("L1", sig+"-refuses-conformant-stream", "the Go decoder does not read a conformant stream: "+outcome, detail(nil))
+	case wellFormed:
+		var specReq, want string
+		if encName == "plain" {
+			specReq, want = fmt.Sprintf("plain.specdec %s %s", k.String(), srcHex), "ok "+c4toks(k, back)
+		} else {
+			specReq, want = fmt.Sprintf("bss.specdec %d %s", k.width, srcHex), "ok "+c4hexToks(back)
+		}
+		w.b.ask(specReq, func(ans string) {
+			if ans != want {
+				ctx.Fail("L1", sig+"-differs-from-spec-decoder", "the Go decoder and the SPEC decoder read different values from the same conformant stream",
+					detail(map[string]any{"go": c4short(want), "spec": c4short(ans)}))
+			}
+		})
+	case outcome == "ok":
+		ctx.Observe(sig+"-accepts-malformed-length", "a stream whose length is not a multiple of the value width is decoded without error", detail(nil))
+	case strings.HasPrefix(outcome, "panic"):
+		ctx.Observe(sig+"-panics-on-malformed-length", "a stream whose length is not a multiple of the value width makes the decoder panic", detail(map[string]any{"outcome": outcome}))
+	}
+	// L2
+	goAns := outcome
+	var req string
+	switch {
+	case k.name == "flba" && encName == "plain":
+		req = fmt.Sprintf("plain.godecflba %d %s", k.width, srcHex)
+		if outcome == "ok" {
+			goAns = "ok " + core.Hex(flat)
+		}
+	case k.name == "flba":
+		req = fmt.Sprintf("bss.godecflba %d %s %s", k.width, stale, srcHex)
+		if outcome == "ok" {
+			goAns = "ok " + core.Hex(flat)
+		}
+	case encName == "plain":
+		req = fmt.Sprintf("plain.godecfixed %d %s", k.width, srcHex)
+		if outcome == "ok" {
+			goAns = "ok " + c4toks(k, back)
+		}
+	default:
+		req = fmt.Sprintf("bss.godecfixed %d %s", k.width, srcHex)
+		if outcome == "ok" {
+			goAns = "ok " + c4toks(k, back)
+		}
+	}
+	if strings.HasPrefix(goAns, "panic") {
+		goAns = "panic"
+	}
+	w.b.ask(req, func(ans string) {
+		if ans != goAns {
+			ctx.Fail("L2", sig+"-mirror", "Go decoder outcome differs from its Lean mirror", detail(map[string]any{"go": c4short(goAns), "mirror": c4short(ans), "stale": c4short(stale)}))
+		}
+	})
+}
+
+func (w *c4worker) decoderStream(k c4kind) []byte {
+	r := w.r
+	m := []int{0, 1, 2, 3, 7, 8, 9, 15, 16, 17, 31, 32, 33, 63, 64, 65, 127, 128, 129}[r.Intn(19)]
+	if r.Intn(6) == 0 {
+		m = r.Intn(600)
+	}
+	n := m * k.width
+	if k.width > 1 && r.Intn(4) == 0 {
+		n += 1 + r.Intn(k.width-1)
+	}
+	s := make([]byte, n)
+	switch r.Intn(3) {
+	case 0:
+		r.Read(s)
+	case 1:
+		for i := range s {
+			s[i] = []byte{0x00, 0xFF, 0x80, 0x7F}[r.Intn(4)]
+		}
+	default:
+		for i := range s {
+			s[i] = byte(i)
+		}
+	}
+	return s
+}
+
+// PLAIN DecodeFixedLenByteArray evaluates len(src) % size before anything else about a zero size
+// (outside the assumption "size >= 1"; the BYTE_STREAM_SPLIT twin answers ErrInvalidArgument).
+func c4FLBASize0Probe(ctx *core.Ctx) {
+	for _, encName := range []string{"plain", "bss"} {
+		func() {
+			defer func() {
+				if p := recover(); p != nil {
+					ctx.Observe(encName+"-flba-decode-size0-panics", fmt.Sprintf("DecodeFixedLenByteArray with size 0 panics: %v", p), map[string]any{"encoding": encName})
+				}
+			}()
+			var enc encoding.Encoding = new(plain.Encoding)
+			if encName == "bss" {
+				enc = new(bytestreamsplit.Encoding)
+			}
+			enc.DecodeFixedLenByteArray(nil, []byte{1, 2, 3}, 0)
+		}()
+	}
+}
+
 // ------------------------------------------------------------------ dictionaries
 
 type c4dictType struct {
@@ -1451,6 +1610,7 @@ func RunC04Plain(ctx *core.Ctx) {
 	for _, t := range dictTypes {
 		c4LongerIndexesProbe(ctx, t)
 	}
+	c4FLBASize0Probe(ctx)
 
 	var wg sync.WaitGroup
 	for _, t := range dictTypes {
@@ -1519,6 +1679,21 @@ func RunC04Plain(ctx *core.Ctx) {
 				w.malformedCase(s, origin)
 			}
 			lap("malformed")
+			// the Go decoders on arbitrary byte strings (conformant = any multiple of the width)
+			for _, k := range plainKinds {
+				if k.name == "bool" || k.name == "bytes" {
+					continue
+				}
+				for i := 0; i < share(ctx.Scale(400, 3000)); i++ {
+					w.decoderCase("plain", k, w.decoderStream(k))
+				}
+			}
+			for _, k := range bssKinds {
+				for i := 0; i < share(ctx.Scale(400, 3000)); i++ {
+					w.decoderCase("bss", k, w.decoderStream(k))
+				}
+			}
+			lap("decoders")
 			// dictionaries
 			for _, t := range dictTypes {
 				for i := 0; i < share(ctx.Scale(1200, 10000)); i++ {
